@@ -99,6 +99,54 @@ def finite(xs):
     return all(isinstance(v, float) and math.isfinite(v) for v in xs)
 
 
+# ----------------------------------------------------------------------------- power-of-two scaling
+# Every stream that carries data is also run on copies of the data multiplied by 2^sc (case field "sc",
+# -40 .. 40).  Multiplying binary64 numbers by a power of two is exact (no overflow / underflow at these
+# sizes), and every step of Landmark MDS / Landmark Isomap / triangulate is homogeneous in the data, so the
+# implementation's results on the scaled copy are the unscaled results times a known power of 2^sc, up to
+# nothing on the exact streams and up to rounding on the tolerance streams.  The results are multiplied back
+# (exactly) and then judged by the very same evaluators at unit scale — so every tolerance is relative to
+# the data scale, and an ABSOLUTE threshold anywhere in the landmark code shows up as a concrete failing
+# (scaled) input.
+SC_CHOICES = [-40, -40, -36, -32, -28, -24, -16, -8, 8, 16, 24, 28, 32, 36, 40, 40]
+T_POW = {"D2": 2, "MU": 2, "B": 2, "LAM": 2, "TLAM": 2, "V": 0, "S": 1, "YL": 1, "EMB": 1, "TRI": 1}
+I_POW = {"G": 1, "B": 2, "BBT": 4, "LAM": 4, "U": 0, "Q": 1, "EMB": 1}
+R_POW = {"EMB": 1, "FD": -1}
+API_POW = {"EMB": 1}
+
+
+def sc_of(c):
+    try:
+        return int(c.get("sc", 0) or 0)
+    except (TypeError, ValueError):
+        return 0
+
+
+def ldexp_safe(v, e):
+    try:
+        return math.ldexp(v, e)
+    except OverflowError:
+        return math.copysign(math.inf, v)
+
+
+def scaled_dist(c):
+    sc = sc_of(c)
+    return " ".join(hx(ldexp_safe(float(v), sc)) for v in flat(c["dist"]))
+
+
+def unscale(res, sc, powers):
+    """multiply the implementation's result rows back by 2^(-power*sc) (exact)"""
+    if not sc or res is None:
+        return
+    for tag, p in powers.items():
+        if p and tag in res["rows"]:
+            try:
+                vals = parse_hex_floats(res["rows"][tag])
+            except ValueError:
+                continue
+            res["rows"][tag] = [hx(ldexp_safe(v, -p * sc)) for v in vals]
+
+
 def jacobi_eigenvalues(A):
     """eigenvalues of a small symmetric float matrix (cyclic Jacobi); used only for gap / sign guards"""
     n = len(A)
@@ -429,6 +477,26 @@ def gen_I(rng):
     return {"mode": "I", "N": n, "L": L, "d": d, "k": k, "lm": lm, "dist": dist}
 
 
+def gen_TM(rng):
+    """stream T through the real embed(): landmark_ratio = L/N with N and L powers of two (count exact, the
+    means exact), validate() needs L >= 3 and d <= L"""
+    kind = rng.choice(["line", "line", "l1", "l1", "asym"])
+    n = rng.choice([4, 8, 8, 16])
+    L = rng.choice([x for x in (4, 8) if x <= n])
+    d = 1 if kind == "line" else rng.randint(1, min(3, L - 1))
+    dist, desc = gen_metric(rng, kind, n)
+    return {"mode": "TM", "N": n, "L": L, "d": d, "ratio": L / n, "seed": rng.randrange(1 << 30), "dist": dist,
+            "kind": kind}
+
+
+def gen_IM(rng):
+    """stream I through the real embed()"""
+    c = gen_I(rng)
+    L = rng.choice([4, 8])
+    return {"mode": "IM", "N": c["N"], "L": L, "d": min(c["d"], L - 1), "k": c["k"], "ratio": L / c["N"],
+            "seed": rng.randrange(1 << 30), "dist": c["dist"]}
+
+
 def ref_geodesics(dist, k, lm):
     """exact landmark geodesics of the DIRECTED k-nearest-neighbour graph (integers)"""
     n = len(dist)
@@ -459,22 +527,28 @@ def flat(m):
 
 def impl_line(c):
     m = c["mode"]
+    sc = sc_of(c)
     if m == "T":
-        return "T %d %d %d %s %s" % (c["N"], c["L"], c["d"], " ".join(map(str, c["lm"])),
-                                      " ".join(hx(v) for v in flat(c["dist"])))
+        return "T %d %d %d %s %s" % (c["N"], c["L"], c["d"], " ".join(map(str, c["lm"])), scaled_dist(c))
+    if m == "TM":    # the real LandmarkMultidimensionalScalingImplementation::embed(), routine calls recorded
+        return "M lmds %d %d %s %d 0 %s" % (c["N"], c["d"], hx(c["ratio"]), c["seed"], scaled_dist(c))
+    if m == "IM":    # the real LandmarkIsomapImplementation::embed(), routine calls recorded
+        return "M lisomap %d %d %s %d %d %s" % (c["N"], c["d"], hx(c["ratio"]), c["seed"], c["k"], scaled_dist(c))
     if m == "R":
+        two = Fraction(2)
         return "R %d %d %d %s %s %s %s %s" % (
-            c["N"], c["L"], c["d"], " ".join(map(str, c["lm"])), " ".join(hx(v) for v in flat(c["dist"])),
-            " ".join(hx(v) for v in c["mu"]), " ".join(hx(v) for v in flat(c["first"])),
-            " ".join(hx(v) for v in c["second"]))
+            c["N"], c["L"], c["d"], " ".join(map(str, c["lm"])), scaled_dist(c),
+            " ".join(hx(Fraction(v) * two ** (2 * sc)) for v in c["mu"]),
+            " ".join(hx(Fraction(v) * two ** sc) for v in flat(c["first"])),
+            " ".join(hx(Fraction(v) * two ** (2 * sc)) for v in c["second"]))
     if m == "S":
         return "S %d %s %d %d" % (c["N"], hx(c["ratio"]), c["reps"], c["seed"])
     if m == "I":
         return "I %d %d %d %d %s %s" % (c["N"], c["L"], c["d"], c["k"], " ".join(map(str, c["lm"])),
-                                         " ".join(hx(v) for v in flat(c["dist"])))
+                                         scaled_dist(c))
     if m == "EAPI":
         return "E %s %d %d %s %d %d %s" % (c["method"], c["N"], c["d"], hx(c["ratio"]), c["seed"], c["k"],
-                                            " ".join(hx(v) for v in flat(c["dist"])))
+                                            scaled_dist(c))
     raise ValueError(m)
 
 
@@ -622,11 +696,12 @@ def eval_R(ctx, exe, mexe, cases, st):
     model = run_model(ctx, mexe, lines)
     for c, res, mo in zip(cases, impl, model):
         st.evals += 1
-        st.count("R")
+        st.count("R" if not sc_of(c) else "R_scaled")
         if res["crashed"] or res["bad"] or res["exc"]:
             ctx.violation(jsonable(c), "triangulate: " + (crash_why(res) if res["crashed"] else
                           "unexpected %s" % (res["exc"] or "BADCASE")))
             continue
+        unscale(res, sc_of(c), R_POW)
         try:
             emb = [Fraction(v) for v in parse_hex_floats(res["rows"]["EMB"])]
             fd = [Fraction(v) for v in parse_hex_floats(res["rows"]["FD"])]
@@ -668,7 +743,9 @@ def eval_R(ctx, exe, mexe, cases, st):
                 break
         if bad:
             ctx.violation(jsonable(c), "triangulate: row %d is %s, the triangulation formula "
-                          "-1/2 pinv(Y_L)(d^2 - mu) / landmark copy gives %s (exact dyadic operands)" % bad)
+                          "-1/2 pinv(Y_L)(d^2 - mu) / landmark copy gives %s (exact dyadic operands%s)" % (
+                              bad + (", all operands scaled by 2^%d and the result scaled back" % sc_of(c)
+                                     if sc_of(c) else "",)))
             continue
         if emb != memb:
             k = next(i for i, (a, b) in enumerate(zip(emb, memb)) if a != b)
@@ -679,7 +756,7 @@ def eval_R(ctx, exe, mexe, cases, st):
             ctx.mismatch(jsonable(c), "landmarks_embedding.first after triangulate, entry %d: model %s vs "
                          "implementation %s" % (k, float(mfd[k]), float(fd[k])))
         if L < n:
-            st.nontrivial(["R", c["lm"], c["dist"], [str(v) for v in c["mu"]]])
+            st.nontrivial(["R", c["lm"], c["dist"], [str(v) for v in c["mu"]], sc_of(c)])
 
 
 # ----------------------------------------------------------------------------- evaluation: T
@@ -687,27 +764,93 @@ def mat(vals, r, c):
     return [vals[i * c:(i + 1) * c] for i in range(r)]
 
 
+def embed_prelude(ctx, c, res, what):
+    """streams TM / IM (the real embed() with recorded routine calls): the shuffle the hook reports must be a
+    permutation, the landmark list embed() got must be its first int(N*ratio) entries.  Returns the list or None"""
+    rc = jsonable(c)
+    n = c["N"]
+    count = int(n * c["ratio"])
+    try:
+        perm = None if res["rows"].get("PERM", ["-"]) == ["-"] else [int(x) for x in res["rows"]["PERM"]]
+        lm = [int(x) for x in res["rows"]["LM"]]
+    except (KeyError, ValueError):
+        ctx.violation(rc, what + ": missing / unparsable landmark output")
+        return None
+    if perm is None:
+        ctx.mismatch(rc, "hook H1 did not report the permutation")
+        return None
+    if sorted(perm) != list(range(n)):
+        ctx.violation(dict(rc, perm=perm), "oracle contract: tapkee::random_shuffle did not produce a permutation")
+        return None
+    if len(lm) != count or len(set(lm)) != len(lm) or any(x < 0 or x >= n for x in lm):
+        ctx.violation(rc, "%s::embed() works with landmarks %s: not %d distinct indices below N=%d (integer part "
+                      "of landmark_ratio*N)" % (what, lm[:40], count, n))
+        return None
+    if lm != perm[:count]:
+        ctx.mismatch(rc, "%s::embed(): landmark list %s is not the prefix %s of the observed shuffle" % (
+            what, lm[:20], perm[:count][:20]))
+        return None
+    return lm
+
+
 def eval_T(ctx, exe, mexe, cases, st):
+    """streams T (harness repeats the lines of embed() on harness-chosen landmarks) and TM (the real embed() of
+    LandmarkMultidimensionalScalingImplementation; what it hands to / gets from select_landmarks_random,
+    compute_distance_matrix, eigendecomposition_via and triangulate is recorded by macros)"""
     if not cases:
         return
     impl = run_impl(ctx, exe, [impl_line(c) for c in cases])
-    a_lines = ["A %d %d %s %s" % (c["N"], c["L"], " ".join(map(str, c["lm"])),
-                                  " ".join(tok(v) for v in flat(c["dist"]))) for c in cases]
-    amodel = run_model(ctx, mexe, a_lines)
-    t_lines, pt_lines, t_idx = [], [], []
-    for c, res, am in zip(cases, impl, amodel):
+    ready = []
+    for c, res in zip(cases, impl):
+        via = c["mode"] == "TM"
         st.evals += 1
-        st.count("T_" + c["kind"])
+        st.count(("TM_" if via else "T_") + c["kind"] + ("_scaled" if sc_of(c) else ""))
         if res["crashed"] or res["bad"] or res["exc"]:
             ctx.violation(jsonable(c), "Landmark MDS pipeline: " + (crash_why(res) if res["crashed"] else
                           "unexpected %s" % (res["exc"] or "BADCASE")))
             continue
+        unscale(res, sc_of(c), T_POW)
+        if via:
+            lm = embed_prelude(ctx, c, res, "LandmarkMultidimensionalScalingImplementation")
+            if lm is None:
+                continue
+            c = dict(c, lm=lm, L=len(lm))
+        ready.append((c, res))
+    a_lines = ["A %d %d %s %s" % (c["N"], c["L"], " ".join(map(str, c["lm"])),
+                                  " ".join(tok(v) for v in flat(c["dist"]))) for c, _ in ready]
+    amodel = run_model(ctx, mexe, a_lines)
+    t_lines, pt_lines, t_idx = [], [], []
+    for (c, res), am in zip(ready, amodel):
+        via = c["mode"] == "TM"
         n, L, d = c["N"], c["L"], c["d"]
         try:
-            rows = {k: parse_hex_floats(res["rows"][k]) for k in ("D2", "MU", "B", "LAM", "V", "S", "YL", "EMB")}
+            rows = {k: parse_hex_floats(res["rows"][k]) for k in (
+                ("D2", "MU", "B", "LAM", "V", "YL", "EMB", "TLAM", "TRI") if via else
+                ("D2", "MU", "B", "LAM", "V", "S", "YL", "EMB"))}
         except (KeyError, ValueError):
             ctx.violation(jsonable(c), "Landmark MDS pipeline: missing / unparsable output")
             continue
+        if via:
+            # what embed() does between the routine calls, judged on its own operands: the eigenvalues go to
+            # triangulate unchanged, the eigenvectors scaled by sqrt(max(lam, 0)), triangulate's result is returned
+            rows["S"] = [math.sqrt(max(v, 0.0)) if v == v else v for v in rows["LAM"]]
+            if finite(rows["LAM"]) and finite(rows["V"]) and len(rows["V"]) == L * d and len(rows["LAM"]) == d:
+                if [v.hex() for v in rows["TLAM"]] != [v.hex() for v in rows["LAM"]]:
+                    ctx.mismatch(jsonable(c), "embed(): the eigenvalues handed to triangulate %s are not the "
+                                 "solver's %s" % (rows["TLAM"], rows["LAM"]))
+                    continue
+                ymax = max([abs(v) for v in rows["YL"]] + [1e-300]) if finite(rows["YL"]) else None
+                want = [rows["V"][i * d + a] * rows["S"][a] for i in range(L) for a in range(d)]
+                if ymax is None or len(rows["YL"]) != L * d or any(
+                        abs(u - v) > 1e-12 * max(ymax, abs(v)) for u, v in zip(rows["YL"], want)):
+                    ctx.violation(jsonable(c), "LandmarkMultidimensionalScalingImplementation::embed(): the landmark "
+                                  "coordinates handed to triangulate (and copied into the landmark rows) are not the "
+                                  "solver's eigenvectors scaled by sqrt(max(lambda, 0)), i.e. not what MDS gives for "
+                                  "that subset: %s vs %s" % (rows["YL"][:4], want[:4]))
+                    continue
+            if [v.hex() for v in rows["TRI"]] != [v.hex() for v in rows["EMB"]]:
+                ctx.mismatch(jsonable(c), "embed() does not return what triangulate() returned")
+                continue
         # exact stream: D2, mu, B
         ok_exact = True
         for tag in ("D2", "MU", "B"):
@@ -716,7 +859,7 @@ def eval_T(ctx, exe, mexe, cases, st):
                 ok_exact = False
                 break
             iv = [Fraction(v) for v in rows[tag]]
-            mv = [parse_q(x) for x in am[tag]]
+            mv = [parse_q(x) for x in am.get(tag, [])]
             if iv != mv:
                 k = next((i for i, (a, b) in enumerate(zip(iv, mv)) if a != b), min(len(iv), len(mv)))
                 ctx.mismatch(jsonable(c), "%s entry %d: model %s vs implementation %s (exact stream)" % (
@@ -733,7 +876,7 @@ def eval_T(ctx, exe, mexe, cases, st):
                 ctx.violation(jsonable(c), "landmark_distances_squared is not the mean squared landmark distance")
                 continue
         if c["kind"] == "asym":
-            st.nontrivial(["Tasym", c["lm"], c["dist"]])
+            st.nontrivial(["Tasym", c["mode"], c["lm"], c["dist"], sc_of(c)])
             continue
         lam, V, S, YL, EMB, B = rows["LAM"], rows["V"], rows["S"], rows["YL"], rows["EMB"], rows["B"]
         if len(lam) != d or len(V) != L * d or len(EMB) != n * d or len(YL) != L * d:
@@ -805,11 +948,14 @@ def eval_T(ctx, exe, mexe, cases, st):
             ctx.mismatch(jsonable(c), "embedding: model lmds_embed vs implementation differ by %g (tolerance "
                          "stream, tol %g)" % (worst, tol))
         if c["L"] < c["N"]:
-            st.nontrivial(["T", c["lm"], c["dist"], c["d"]])
+            st.nontrivial([c["mode"], c["lm"], c["dist"], c["d"], sc_of(c)])
 
 
 # ----------------------------------------------------------------------------- evaluation: I
 def eval_I(ctx, exe, mexe, cases, st):
+    """streams I (harness repeats the lines of the dense embed() body on harness-chosen landmarks) and IM (the real
+    LandmarkIsomapImplementation::embed(); landmark list, geodesics, the matrix handed to the solver and the
+    solver's answer are recorded by macros)"""
     if not cases:
         return
     fexe = getattr(ctx, "fib_exe", None)
@@ -819,8 +965,27 @@ def eval_I(ctx, exe, mexe, cases, st):
     impl = run_impl(ctx, exe, [impl_line(c) for c in cases])
     lines, idx = [], []
     for c, res in zip(cases, impl):
+        via = c["mode"] == "IM"
         st.evals += 1
-        st.count("I")
+        st.count(("IM" if via else "I") + ("_scaled" if sc_of(c) else ""))
+        if via:
+            if res["crashed"]:
+                ctx.violation(jsonable(c), "Landmark Isomap (method class): " + crash_why(res))
+                continue
+            if res["bad"] or res["exc"]:
+                # only a disconnected k-nn graph may make it fail: outside the property (C03 guards it)
+                full = ref_geodesics(c["dist"], c["k"], list(range(c["N"])))
+                if any(v is None for row in full for v in row):
+                    st.skip("IM_disconnected_graph")
+                else:
+                    ctx.violation(jsonable(c), "Landmark Isomap (method class) on a strongly connected k-nn graph, "
+                                  "accepted parameters: unexpected %s" % (res["exc"] or "BADCASE"))
+                continue
+            unscale(res, sc_of(c), I_POW)
+            lm = embed_prelude(ctx, c, res, "LandmarkIsomapImplementation")
+            if lm is None:
+                continue
+            c = dict(c, lm=lm, L=len(lm))
         ref = ref_geodesics(c["dist"], c["k"], c["lm"])
         if any(v is None for row in ref for v in row) and not res["crashed"]:
             st.skip("I_disconnected_graph")     # geodesic = DBL_MAX: outside the property (C03 guards it)
@@ -829,9 +994,12 @@ def eval_I(ctx, exe, mexe, cases, st):
             ctx.violation(jsonable(c), "Landmark Isomap pipeline: " + (crash_why(res) if res["crashed"] else
                           "unexpected %s" % (res["exc"] or "BADCASE")))
             continue
+        if not via:
+            unscale(res, sc_of(c), I_POW)
         n, L, d = c["N"], c["L"], c["d"]
         try:
-            rows = {k: parse_hex_floats(res["rows"][k]) for k in ("G", "B", "LAM", "U", "Q", "EMB")}
+            rows = {k: parse_hex_floats(res["rows"][k]) for k in (
+                ("G", "BBT", "LAM", "U", "EMB") if via else ("G", "B", "LAM", "U", "Q", "EMB"))}
         except (KeyError, ValueError):
             ctx.violation(jsonable(c), "Landmark Isomap pipeline: missing / unparsable output")
             continue
@@ -842,11 +1010,18 @@ def eval_I(ctx, exe, mexe, cases, st):
                           "entry (%d,%d) is %s, exact reference %s" % (k // n, k % n, G[k] if k < len(G) else None,
                                                                      flat(ref)[k]))
             continue
+        if via:
+            # embed() hands B B^T to the solver; B itself is not an operand of any routine call: it is
+            # recomputed exactly from the recorded geodesics by the model below, B B^T compared at 1e-12
+            rows["B"] = None
+            rows["Q"] = [math.sqrt(math.sqrt(v)) if v > 0 else float("nan") for v in rows["LAM"]]
         lam, U, Q, EMB, B = rows["LAM"], rows["U"], rows["Q"], rows["EMB"], rows["B"]
-        if len(lam) != d or len(U) != L * d or len(EMB) != n * d or len(B) != L * n:
-            ctx.violation(jsonable(c), "shapes: LAM %d U %d EMB %d B %d" % (len(lam), len(U), len(EMB), len(B)))
+        if len(lam) != d or len(U) != L * d or len(EMB) != n * d or (B is not None and len(B) != L * n) or (
+                via and len(rows["BBT"]) != L * L):
+            ctx.violation(jsonable(c), "shapes: LAM %d U %d EMB %d for L=%d d=%d N=%d" % (len(lam), len(U), len(EMB),
+                                                                                       L, d, n))
             continue
-        if not (finite(lam) and finite(U) and finite(B)):
+        if not (finite(lam) and finite(U) and (B is None or finite(B)) and (not via or finite(rows["BBT"]))):
             ctx.violation(jsonable(c), "non-finite intermediate values on a connected integer graph")
             continue
         idx.append((c, rows))
@@ -858,14 +1033,32 @@ def eval_I(ctx, exe, mexe, cases, st):
                                                  " ".join(tok(v) for v in U), " ".join(tok(v) for v in Q)))
     model = run_model(ctx, mexe, lines)
     for (c, rows), mo in zip(idx, model):
+        via = c["mode"] == "IM"
         n, L, d = c["N"], c["L"], c["d"]
-        B = rows["B"]
-        mB = [parse_q(x) for x in mo["B"]]
-        if [Fraction(v) for v in B] != mB:
-            k = next(i for i, (a, b) in enumerate(zip(B, mB)) if Fraction(a) != b)
-            ctx.mismatch(jsonable(c), "Landmark Isomap B entry %d: model %s vs implementation %s (exact stream)" % (
-                k, float(mB[k]), B[k]))
+        try:
+            mB = [parse_q(x) for x in mo["B"]]
+            memb = [float(parse_q(x)) for x in mo["EMB"]]
+        except (KeyError, ValueError, ZeroDivisionError):
+            ctx.mismatch(jsonable(c), "model lisomap: %s" % {k: v[:3] for k, v in mo.items()})
             continue
+        if via:
+            mBm = mat(mB, L, n)
+            exact = [sum(mBm[i][t] * mBm[j][t] for t in range(n)) for i in range(L) for j in range(L)]
+            top = max([abs(v) for v in exact] + [Fraction(1, 10 ** 300)])
+            worst = max(abs(Fraction(a) - b) for a, b in zip(rows["BBT"], exact))
+            if worst > Fraction(1, 10 ** 12) * top:
+                ctx.mismatch(jsonable(c), "Landmark Isomap embed(): the matrix handed to the eigen-solver differs from "
+                             "B B^T (B = doubly centred squared landmark geodesics, exact model) by %g (largest entry "
+                             "%g)" % (float(worst), float(top)))
+                continue
+            B = rows["B"] = [float(v) for v in mB]
+        else:
+            B = rows["B"]
+            if [Fraction(v) for v in B] != mB:
+                k = next((i for i, (a, b) in enumerate(zip(B, mB)) if Fraction(a) != b), 0)
+                ctx.mismatch(jsonable(c), "Landmark Isomap B entry %d: model %s vs implementation %s (exact stream)"
+                             % (k, float(mB[k]), B[k]))
+                continue
         lam, U, Q, EMB = rows["LAM"], rows["U"], rows["Q"], rows["EMB"]
         if min(lam) <= 0 or not finite(Q) or not finite(EMB):
             st.skip("I_nonpositive_selected_eigenvalue")
@@ -900,16 +1093,26 @@ def eval_I(ctx, exe, mexe, cases, st):
         if bad:
             ctx.violation(jsonable(c), "Landmark Isomap embedding: " + bad)
             continue
-        memb = [float(parse_q(x)) for x in mo["EMB"]]
         worst = max(abs(a - b) for a, b in zip(memb, EMB))
         if worst > 1e-9 * ys * max(1.0, (max(lam) / min(lam)) ** 0.5):
             ctx.mismatch(jsonable(c), "Landmark Isomap embedding: model vs implementation differ by %g" % worst)
-        st.nontrivial(["I", c["lm"], c["dist"], c["k"], d])
+        st.nontrivial([c["mode"], c["lm"], c["dist"], c["k"], d, sc_of(c), c.get("heap")])
 
 
 # ----------------------------------------------------------------------------- evaluation: E (public API)
-def api(method, n, d, ratio, seed, k, dist):
-    return {"mode": "EAPI", "method": method, "N": n, "d": d, "ratio": ratio, "seed": seed, "k": k, "dist": dist}
+def api(method, n, d, ratio, seed, k, dist, sc=0):
+    return {"mode": "EAPI", "method": method, "N": n, "d": d, "ratio": ratio, "seed": seed, "k": k, "dist": dist,
+            "sc": sc}
+
+
+def run_scaled(ctx, exe, calls, powers=None, timeout=600):
+    """calls: case dicts for impl_line (their "sc" scales the data); results are scaled back"""
+    if not calls:
+        return []
+    impl = run_impl(ctx, exe, [impl_line(c) for c in calls], timeout=timeout)
+    for c, res in zip(calls, impl):
+        unscale(res, sc_of(c), powers or (T_POW if c["mode"] == "T" else I_POW if c["mode"] == "I" else API_POW))
+    return impl
 
 
 def parse_api(res, n, d):
@@ -963,12 +1166,12 @@ def eval_E2(ctx, exe, mexe, cases, st):
     for c in cases:
         dist = euclid_dist(c["pts"])
         for seed in c["seeds"]:
-            lines.append(impl_line(api("lmds", c["N"], c["d"], c["ratio"], seed, 0, dist)))
+            lines.append(api("lmds", c["N"], c["d"], c["ratio"], seed, 0, dist, sc_of(c)))
             meta.append((c, seed, dist))
-    impl = run_impl(ctx, exe, lines)
+    impl = run_scaled(ctx, exe, lines)
     for (c, seed, dist), res in zip(meta, impl):
         st.evals += 1
-        st.count("E2_lmds_r%d_d%d" % (c["r"], c["d"]))
+        st.count("E2_lmds_r%d_d%d%s" % (c["r"], c["d"], "_scaled" if sc_of(c) else ""))
         n, d, r = c["N"], c["d"], c["r"]
         rc = jsonable(dict(c, seeds=[seed]))
         perm, Y, problem = parse_api(res, n, d)
@@ -999,7 +1202,7 @@ def eval_E2(ctx, exe, mexe, cases, st):
             else:
                 ctx.note("OPEN F42 (patch proposed, not registered yet, not counted as a verdict): " + why[:300])
         else:
-            st.nontrivial(["E2", c["pts"], lm, d])
+            st.nontrivial(["E2", c["pts"], lm, d, sc_of(c)])
 
 
 def eval_E(ctx, exe, mexe, cases, st):
@@ -1010,9 +1213,9 @@ def eval_E(ctx, exe, mexe, cases, st):
     for c in cases:
         dist = euclid_dist(c["pts"])
         for seed in c["seeds"]:
-            lines.append(impl_line(api("lmds", c["N"], c["d"], c["ratio"], seed, 0, dist)))
+            lines.append(api("lmds", c["N"], c["d"], c["ratio"], seed, 0, dist, sc_of(c)))
             meta.append((c, seed, dist))
-    impl = run_impl(ctx, exe, lines)
+    impl = run_scaled(ctx, exe, lines)
     pd_lines, pd_idx, sub_lines, sub_idx = [], [], [], []
     # embed() itself against the routine-level pipeline (mode T, which is tied to the model): same landmarks,
     # same callback table -> the two embeddings must agree to rounding (closes the gap that mode T repeats the
@@ -1022,10 +1225,10 @@ def eval_E(ctx, exe, mexe, cases, st):
         perm, Y, problem = parse_api(res, c["N"], c["d"])
         count = int(c["N"] * c["ratio"])
         if perm is not None and Y is not None and sorted(perm) == list(range(c["N"])) and c["d"] <= count:
-            x_lines.append("T %d %d %d %s %s" % (c["N"], count, c["d"], " ".join(map(str, perm[:count])),
-                                                 " ".join(hx(v) for v in flat(dist))))
+            x_lines.append({"mode": "T", "N": c["N"], "L": count, "d": c["d"], "lm": perm[:count], "dist": dist,
+                            "sc": sc_of(c)})
             x_idx.append((c, seed, Y))
-    for (c, seed, Y), res in zip(x_idx, run_impl(ctx, exe, x_lines) if x_lines else []):
+    for (c, seed, Y), res in zip(x_idx, run_scaled(ctx, exe, x_lines)):
         st.evals += 1
         st.count("E_embed_vs_routines")
         try:
@@ -1042,7 +1245,7 @@ def eval_E(ctx, exe, mexe, cases, st):
                          "the same landmarks" % worst)
     for (c, seed, dist), res in zip(meta, impl):
         st.evals += 1
-        st.count("E_lmds_d%d" % c["d"])
+        st.count("E_lmds_d%d%s" % (c["d"], "_scaled" if sc_of(c) else ""))
         n, d = c["N"], c["d"]
         rc = jsonable(dict(c, seeds=[seed]))
         perm, Y, problem = parse_api(res, n, d)
@@ -1078,10 +1281,10 @@ def eval_E(ctx, exe, mexe, cases, st):
         pd_lines.append("PD %d %d %s %s %s" % (n, d, tok(tol), " ".join(tok(v) for v in flat(Y)),
                                                 " ".join(tok(v) for v in flat(dist))))
         pd_idx.append((rc, lm, tol))
-        st.nontrivial(["E", c["pts"], lm])
+        st.nontrivial(["E", c["pts"], lm, sc_of(c)])
         # landmark block = MDS of the subset (modulo column signs) when the spectrum is simple
         if spectrum_ok(G, d) and len(lm) > d:
-            sub_lines.append(impl_line(api("mds", len(lm), d, 1.0, -1, 0, sub)))
+            sub_lines.append(api("mds", len(lm), d, 1.0, -1, 0, sub, sc_of(c)))
             sub_idx.append((rc, lm, Y))
     for (rc, lm, tol), po in zip(pd_idx, run_model(ctx, mexe, pd_lines)):
         if po.get("PD") != ["1"]:
@@ -1089,7 +1292,7 @@ def eval_E(ctx, exe, mexe, cases, st):
                           "Euclidean data of intrinsic dimension = target_dimension although the landmarks span it "
                           "(extracted decision procedure, tolerance %g on squared distances): %s" % (tol, po))
     if sub_lines:
-        sres = run_impl(ctx, exe, sub_lines)
+        sres = run_scaled(ctx, exe, sub_lines)
         ps_lines, ps_idx = [], []
         for (rc, lm, Y), res in zip(sub_idx, sres):
             st.evals += 1
@@ -1117,13 +1320,13 @@ def eval_E1(ctx, exe, mexe, cases, st):
     lines = []
     for c in cases:
         other = "mds" if c["method"] == "lmds" else "isomap"
-        lines.append(impl_line(api(c["method"], c["N"], c["d"], 1.0, c["seed"], c["k"], c["dist"])))
-        lines.append(impl_line(api(other, c["N"], c["d"], 1.0, -1, c["k"], c["dist"])))
-    impl = run_impl(ctx, exe, lines)
+        lines.append(api(c["method"], c["N"], c["d"], 1.0, c["seed"], c["k"], c["dist"], sc_of(c)))
+        lines.append(api(other, c["N"], c["d"], 1.0, -1, c["k"], c["dist"], sc_of(c)))
+    impl = run_scaled(ctx, exe, lines)
     ps_lines, ps_idx = [], []
     for i, c in enumerate(cases):
         st.evals += 1
-        st.count("E1_" + c["method"])
+        st.count("E1_" + c["method"] + ("_scaled" if sc_of(c) else ""))
         n, d = c["N"], c["d"]
         rc = jsonable(c)
         B0 = center_gram([[v * v for v in row] for row in c["dist"]])
@@ -1150,7 +1353,7 @@ def eval_E1(ctx, exe, mexe, cases, st):
                                                 " ".join(tok(v) for v in flat(Z))))
         ps_idx.append((rc, magnitude_case))
         if not magnitude_case:
-            st.nontrivial(["E1", c["method"], c["dist"], perm])
+            st.nontrivial(["E1", c["method"], c["dist"], perm, sc_of(c)])
     f43 = any(e.get("signature") == F43_SIG for e in ctx._known_db)
     for (rc, magnitude_case), po in zip(ps_idx, run_model(ctx, mexe, ps_lines)):
         if po.get("PS") != ["1"]:
@@ -1183,13 +1386,13 @@ def eval_EI(ctx, exe, mexe, cases, st):
     model and to the exact geodesic reference) on the landmarks the hook reports"""
     if not cases:
         return
-    lines = [impl_line(api("lisomap", c["N"], c["d"], c["ratio"], c["seed"], c["k"],
-                           [[float(v) for v in row] for row in c["dist"]])) for c in cases]
-    impl = run_impl(ctx, exe, lines)
+    lines = [api("lisomap", c["N"], c["d"], c["ratio"], c["seed"], c["k"],
+                 [[float(v) for v in row] for row in c["dist"]], sc_of(c)) for c in cases]
+    impl = run_scaled(ctx, exe, lines)
     i_lines, idx = [], []
     for c, res in zip(cases, impl):
         st.evals += 1
-        st.count("EI_lisomap")
+        st.count("EI_lisomap" + ("_scaled" if sc_of(c) else ""))
         n, d = c["N"], c["d"]
         rc = jsonable(c)
         count = int(n * c["ratio"])
@@ -1213,10 +1416,10 @@ def eval_EI(ctx, exe, mexe, cases, st):
         if Y is None:
             st.skip("EI_no_embedding")
             continue
-        i_lines.append("I %d %d %d %d %s %s" % (n, count, d, c["k"], " ".join(map(str, lm)),
-                                                " ".join(hx(v) for v in flat(c["dist"]))))
+        i_lines.append({"mode": "I", "N": n, "L": count, "d": d, "k": c["k"], "lm": lm, "dist": c["dist"],
+                        "sc": sc_of(c)})
         idx.append((rc, lm, Y))
-    for (rc, lm, Y), res in zip(idx, run_impl(ctx, exe, i_lines) if i_lines else []):
+    for (rc, lm, Y), res in zip(idx, run_scaled(ctx, exe, i_lines)):
         st.evals += 1
         try:
             Z = parse_hex_floats(res["rows"]["EMB"])
@@ -1233,7 +1436,7 @@ def eval_EI(ctx, exe, mexe, cases, st):
                          "the internal routines (harness mode I, tied to the model) differ by %g on the same landmarks"
                          % worst)
         else:
-            st.nontrivial(["EI", rc["dist"], lm, rc["d"]])
+            st.nontrivial(["EI", rc["dist"], lm, rc["d"], sc_of(rc)])
 
 
 def f21_case():
@@ -1308,7 +1511,8 @@ def budgets(ctx, scale=1):
     return {"S": (60 if q else 400) * scale, "R": (100 if q else 1500) * scale, "T": (48 if q else 500) * scale,
             "I": (16 if q else 200) * scale, "E": (12 if q else 120) * scale,
             "E1_lmds": (10 if q else 80) * scale, "E1_lisomap": (8 if q else 60) * scale,
-            "V": (30 if q else 300) * scale, "E2": (8 if q else 80) * scale, "EI": (12 if q else 120) * scale}
+            "V": (30 if q else 300) * scale, "E2": (8 if q else 80) * scale, "EI": (12 if q else 120) * scale,
+            "TM": (24 if q else 300) * scale, "IM": (8 if q else 100) * scale}
 
 
 def generate(ctx, rng, b):
@@ -1319,7 +1523,9 @@ def generate(ctx, rng, b):
                    [gen_ratio_one(rng, "lisomap") for _ in range(b["E1_lisomap"])],
              "V": [f21_case()] + [gen_V(rng) for _ in range(b["V"])],
              "E2": [gen_E2(rng) for _ in range(b["E2"])],
-             "EI": [gen_EI(rng) for _ in range(b["EI"])]}
+             "EI": [gen_EI(rng) for _ in range(b["EI"])],
+             "TM": [gen_TM(rng) for _ in range(b["TM"])],
+             "IM": [gen_IM(rng) for _ in range(b["IM"])]}
     # boundary cases aimed at the case splits of the proofs
     cases["S"] += [{"mode": "S", "N": 47, "ratio": 3.0 / 47, "reps": 2, "seed": 1},
                    {"mode": "S", "N": 3, "ratio": 1.0, "reps": 2, "seed": 2},
@@ -1330,12 +1536,19 @@ def generate(ctx, rng, b):
                     "second": [Fraction(2)]},          # every row is a landmark: nothing to triangulate
                    {"mode": "R", "N": 4, "L": 1, "d": 1, "lm": [3], "dist": [[0, 1, 2, 3], [1, 0, 1, 2],
                     [2, 1, 0, 1], [3, 2, 1, 0]], "mu": [Fraction(0)], "first": [[2]], "second": [Fraction(4)]}]
+    # every data-carrying case once more on a copy of its data scaled by a power of two (see SC_CHOICES)
+    for key in DATA_STREAMS:
+        cases[key] = cases[key] + [dict(c, sc=rng.choice(SC_CHOICES)) for c in cases[key]]
     return cases
 
 
+STREAMS = ("S", "R", "T", "TM", "I", "IM", "E", "E1", "V", "E2", "EI")
+DATA_STREAMS = ("R", "T", "TM", "I", "IM", "E", "E1", "E2", "EI")
+
+
 def evaluate_all(ctx, exe, mexe, cases, st):
-    for key, fn in (("S", eval_S), ("R", eval_R), ("T", eval_T), ("I", eval_I), ("E", eval_E), ("E1", eval_E1),
-                    ("V", eval_V), ("E2", eval_E2), ("EI", eval_EI)):
+    for key, fn in (("S", eval_S), ("R", eval_R), ("T", eval_T), ("TM", eval_T), ("I", eval_I), ("IM", eval_I),
+                    ("E", eval_E), ("E1", eval_E1), ("V", eval_V), ("E2", eval_E2), ("EI", eval_EI)):
         t0 = ctx.elapsed()
         fn(ctx, exe, mexe, cases.get(key, []), st)
         st.times[key] = round(st.times.get(key, 0) + ctx.elapsed() - t0, 1)
@@ -1345,7 +1558,7 @@ def corpus_cases(ctx):
     out = {}
     for name, c in ctx.corpus():
         c = revive(c.get("case", c))
-        key = c.get("mode") if c.get("mode") in ("S", "R", "T", "I", "E", "E1", "V", "E2", "EI") else None
+        key = c.get("mode") if c.get("mode") in STREAMS else None
         if key:
             out.setdefault(key, []).append(c)
     return out
@@ -1395,8 +1608,8 @@ def run(ctx):
         # own output first, so a genuine violation turns into a replayable input
         evaluate_all(ctx, exe, mexe, generate(ctx, rng, budgets(ctx, 4)), st)
     samples = []
-    for key in ("S", "R", "T", "I", "E", "E1", "V", "E2", "EI"):
-        for c in cases.get(key, [])[:1]:
+    for key in STREAMS:
+        for c in cases.get(key, [])[:1] + cases.get(key, [])[-1:]:
             s = jsonable(c)
             if "dist" in s:
                 s["dist"] = s["dist"][:2]
@@ -1421,7 +1634,19 @@ def run(ctx):
                      "positive and simple (for Landmark Isomap also leading in magnitude): see ratio_one_*_partial",
                      "Euclidean clause checked for intrinsic dimension = target_dimension (selected eigenvalues "
                      "non-zero: hypothesis lam c <> 0 of lmds_reproduces_euclidean)"],
-        extra={"float_cases_checked_in_coq": st.hist.get("S_float_pairs", 0)})
+        extra={"float_cases_checked_in_coq": st.hist.get("S_float_pairs", 0),
+               "violations_by_stream": by_stream(ctx._violations),
+               "mismatches_by_stream": by_stream(ctx._mismatches)})
+
+
+def by_stream(pairs):
+    out = {}
+    for cs, _ in pairs:
+        key = "?"
+        if isinstance(cs, dict):
+            key = str(cs.get("mode")) + ("_scaled" if sc_of(cs) else "")
+        out[key] = out.get(key, 0) + 1
+    return out
 
 
 def replay(ctx, case):
@@ -1429,7 +1654,7 @@ def replay(ctx, case):
     st = Stats()
     c = revive(case)
     mode = c.get("mode")
-    key = mode if mode in ("S", "R", "T", "I", "E", "E1", "V", "E2", "EI") else None
+    key = mode if mode in STREAMS else None
     if key is None:
         print("replay: unknown case mode %r" % mode)
         return 3
